@@ -78,6 +78,10 @@ func Corpus() *Env {
 		def("dnest", A(R("Inner")), VArr(VRec(KV{"id", VI32(1)}), VRec(KV{"id", VI32(2)})), `[{"id": 1}, {"id": 2}]`),
 		def("daa", A(A(P("i32"))), VArr(VArr(VI32(1), VI32(2)), VArr(VI32(3))), `[[1, 2], [3]]`),
 		def("dma", M(A(P("i32"))), VMap(KV{"k", VArr(VI32(1))}), `{"k": [1]}`),
+		// a record default written as the empty object, of a record that has defaults of its own:
+		// the literal is read like any document, so the nested defaults are in the default
+		def("dod", R("OptDefaults"), VRec(), `{}`),
+		def("dnod", R("NeedsOptDefaults"), VRec(KV{"o", VRec()}), `{"o": {}}`),
 		req("req", P("str"))}})
 	add(&Decl{Name: "InclDefaults", Kind: "record", Includes: []string{"Defaults"}, Fields: []Field{opt("x", P("i32"))}})
 	add(&Decl{Name: "NestedDefaults", Kind: "record", Fields: []Field{
